@@ -203,10 +203,18 @@ func execOp(cp **chain, op string) (res string) {
 		}
 		A, _ := strconv.ParseInt(a, 10, 64)
 		D, _ := strconv.ParseInt(d, 10, 64)
+		M := int64(1 << 20)
+		if mv, has := m["M"]; has { // Evidence.MaxBytes of the chain's consensus params (the pool must not depend on it)
+			if !isInt(mv, true) {
+				return "bad-op"
+			}
+			M, _ = strconv.ParseInt(mv, 10, 64)
+		}
 		if c != nil && c.evDB != nil {
 			c.evDB.Close()
 		}
 		*cp = newChain(A, D)
+		(*cp).M = M
 		return "ok"
 	case "blk":
 		if c == nil {
